@@ -151,23 +151,47 @@ def make_scenarios(ck, behs, quick, rng):
         end = steps[-1]
         cls = (end[0], end[2] if end[0] == "G" else 0, end[1] != 0,
                sum(1 for s in steps if s[0] == "S"), sum(1 for s in steps if s[0] == "P"),
-               bool(info["fin"]), sum(1 for v in info["nlog"].values() if v))
+               len(info["fin"]), sum(1 for v in info["nlog"].values() if v))
         classes.setdefault(cls, []).append((steps, info, b["outcome"]))
     ck.extra["distinct_programs"] = len(seen)
     ck.extra["program_classes"] = len(classes)
     keys = sorted(classes)
     for k in keys:
         rng.shuffle(classes[k])
-    picked, nostart = [], 0
+    # round-robin over the classes, the three groups "0 / 1 / 2 workers already finished" taking turns
+    def interleaved(ks):
+        # classes ordered so that the eight endings (exit, return, six signals) take turns
+        bk = {}
+        for k in ks:
+            bk.setdefault((k[0], k[1]), []).append(k)
+        for v in bk.values():
+            rng.shuffle(v)
+        sigs = sorted(e for e in bk if e[0] == "G")
+        cycle = []
+        for i in range(0, max(len(sigs), 1), 2):      # exit and return get a turn after every two signals
+            cycle += [e for e in bk if e[0] in "XR"] + sigs[i:i + 2]
+        out = []
+        while any(bk.values()):
+            for e in cycle:
+                if bk[e]:
+                    out.append(bk[e].pop())
+        return out
+    groups = [interleaved([k for k in keys if k[5] == g]) for g in (0, 1, 2)]
+    pos = [0, 0, 0]
+    picked, nostart, g = [], 0, 0
     while len(picked) < want and any(classes[k] for k in keys):
-        for k in keys:
-            if classes[k] and len(picked) < want:
-                steps, info, outcome = classes[k].pop()
-                if not info["started"]:
-                    nostart += 1
-                    if nostart > 4:
-                        continue
-                picked.append((steps, info, outcome))
+        g = (g + 1) % 3
+        live = [k for k in groups[g] if classes[k]]
+        if not live:
+            continue
+        k = live[pos[g] % len(live)]
+        pos[g] += 1
+        steps, info, outcome = classes[k].pop()
+        if not info["started"]:
+            nostart += 1
+            if nostart > 4:
+                continue
+        picked.append((steps, info, outcome))
     scns, rr = [], {}
     for i, (steps, info, outcome) in enumerate(picked):
         end = steps[-1]
@@ -194,8 +218,9 @@ def make_scenarios(ck, behs, quick, rng):
                     fl.append("f")
                 if t == 0:
                     fl.append("p")
-                rr[x] = rr.get(x, -1) + 1          # flavours in turn per signal, so every one is exercised
-                f = fl[rr[x] % len(fl)]
+                used = rr.setdefault(x, {})          # per signal the applicable flavour used least so far
+                f = min(fl, key=lambda y: (used.get(y, 0), fl.index(y)))
+                used[f] = used.get(f, 0) + 1
                 if f == "k":
                     f = "k%d" % (0 if t != 0 else alive[0])
                 toks.append(f"G{t}:{SIGNUM[x]}:{f}")
